@@ -102,6 +102,15 @@ type extension struct {
 	extensions.NoExtensionImpl
 }
 
+// NewFeed implements extensions.PerFeedExtension. The elevator alerts seen so far are state of
+// a single feed message, so every message gets an extension with an empty set.
+func (e extension) NewFeed() extensions.Extension {
+	return extension{
+		opts:           e.opts,
+		elevatorAlerts: map[string]*gtfsrt.Alert{},
+	}
+}
+
 var priortyToEffect = map[gtfsrt.MercuryEntitySelector_Priority]gtfsrt.Alert_Effect{
 	gtfsrt.MercuryEntitySelector_PRIORITY_NO_SCHEDULED_SERVICE:     gtfsrt.Alert_NO_SERVICE,
 	gtfsrt.MercuryEntitySelector_PRIORITY_NO_MIDDAY_SERVICE:        gtfsrt.Alert_REDUCED_SERVICE,
